@@ -66,6 +66,7 @@ def section_exhaustive(ctx, clauses):
     """All interleavings (20) of two sessions with three commands each; in the
     thorough tier over ALL program pairs of the 3-command alphabet `core3`."""
     traces = []
+    evals = []
     total = 0
     info = {}
     for name, alphabet in SC.ALPHABETS.items():
@@ -90,9 +91,16 @@ def section_exhaustive(ctx, clauses):
                 traces.append(SC.Packed(trace, light=True))
                 total += 1
                 ctx.count(('sched', name, repr(labels)))
+                if len(traces) >= 2400:
+                    # evaluate this batch inside Coq while the next one runs on the server
+                    evals.append(SC.CaseEval(ctx, f'store_all_schedules_{len(evals)}', traces,
+                                             shard=60, jobs=7, light=True))
+                    traces = []
     ctx.extra['exhaustive_schedules'] = {'traces': total, 'alphabets': info}
     ctx.exhaustive = False
-    return SC.CaseEval(ctx, 'store_all_schedules', traces, shard=60, light=True)
+    evals.append(SC.CaseEval(ctx, f'store_all_schedules_{len(evals)}', traces, shard=60, jobs=7,
+                             light=True))
+    return evals
 
 
 def section_maildir(ctx, clauses):
@@ -154,9 +162,8 @@ def run(ctx) -> None:
     ctx.assumptions += ASSUMPTIONS
     ctx.check_proofs(['Store/StoreCheck'])
     clauses = SC.C01_CLAUSES
-    evals = [section_witnesses(ctx, clauses, WITNESSES),
-             section_random(ctx, clauses),
-             section_exhaustive(ctx, clauses)]
+    evals = [section_witnesses(ctx, clauses, WITNESSES), section_random(ctx, clauses)]
+    evals += section_exhaustive(ctx, clauses)
     section_maildir(ctx, clauses)
     for ev in evals:
         ev.finish()
